@@ -34,7 +34,7 @@ MANIFEST = dict(
          "listed names (libm, rand, time, terminal size) and the list names nothing else. Per-procedure no-panic / "
          "errors-iff-invalid theorems live in the files of C15 (strings, characters), C14 (lists, vectors), C08 (+ - * and "
          "integer division) and C07/C13 (every instruction error becomes a returned failure with canonical registers). "
-         "For every expression of the C01 fragments (constants, quote, if, globals, define/set!, builtin application, lambda/closures, calls by name, recursion through a global) that has a reference value, Vm::eval never panics, for any fuel: the outcome is the value or 'out of model fuel' (C06_fragment_no_panic, C06_fragment2_no_panic, C06_fragment3_no_panic). For ANY datum and any fuel, from the booted machine and every session state, Vm::eval never panics at the VM-level sites {payload lookup, lambda / code lookup, environment slots, global slot range, continuation restore, ip decrement, stack trace} (C06_eval_no_vm_panic: an invariant - every stored value names existing payloads and code - is established by boot and preserved by the compiler, all 16 opcodes incl. apply / eval / call/cc / calling a continuation, and every builtin of the generated table); the site Heap::put_cell of a procedure / continuation / macro object belongs to that set since the fixes ba22108 and 60f201f (findings eval-object-in-constant and eval-object-as-define-name: every cell the compiler and the builtins store is a datum; their former witnesses are errors: C06_repaired_eval_object_in_constant, C06_repaired_eval_object_as_define_name, C06_quote_constant_panic). NOT proved: four sites that need the frame discipline of compiled code (heap index through %ep, conversion of a non-value cell, usize underflow in frame arithmetic, environment slot index), and a no-panic theorem for the whole instruction set and for every builtin on ill-typed arguments (vm_progress is OPEN); that part is "
+         "For every expression of the C01 fragments (constants, quote, if, globals, define/set!, builtin application, lambda/closures, calls by name, recursion through a global) that has a reference value, Vm::eval never panics, for any fuel: the outcome is the value or 'out of model fuel' (C06_fragment_no_panic, C06_fragment2_no_panic, C06_fragment3_no_panic). For ANY datum and any fuel, from the booted machine and every session state, Vm::eval never panics at the VM-level sites {payload lookup, lambda / code lookup, environment slots, global slot range, continuation restore, ip decrement, stack trace} (C06_eval_no_vm_panic: an invariant - every stored value names existing payloads and code - is established by boot and preserved by the compiler, all 16 opcodes incl. apply / eval / call/cc / calling a continuation, and every builtin of the generated table); the site Heap::put_cell of a procedure / continuation / macro object belongs to that set since the fixes edf2b0d and a8af987 (findings eval-object-in-constant and eval-object-as-define-name: every cell the compiler and the builtins store is a datum; their former witnesses are errors: C06_repaired_eval_object_in_constant, C06_repaired_eval_object_as_define_name, C06_quote_constant_panic). NOT proved: four sites that need the frame discipline of compiled code (heap index through %ep, conversion of a non-value cell, usize underflow in frame arithmetic, environment slot index), and a no-panic theorem for the whole instruction set and for every builtin on ill-typed arguments (vm_progress is OPEN); that part is "
          "decided by running every builtin x arity 0..5 x a palette of all value kinds and boundary values on the "
          "implementation (panic hook, error rendering forced, probe evaluation after each session) and on the extracted "
          "model, plus token soup through scanner, reader, evaluator, sliced evaluator and highlighter.",
@@ -111,7 +111,7 @@ def corpus():
     out.append(sess(["(display %s)" % CYCLIC[0], PROBE]))
     out.append(sess(["(make-vector 9223372036854775808 0)", PROBE]))
     out.append(sess(["(expt 2 2147483647)", PROBE]))
-    # the panics repaired by fix ba22108 (finding eval-object-in-constant) and fix 60f201f (eval-object-as-define-name)
+    # the panics repaired by fix edf2b0d (finding eval-object-in-constant) and fix a8af987 (eval-object-as-define-name)
     for d in ["(list 'quote car)", "(vector 1 car)", "(list 'quasiquote (list 1 car))", "(list 'quote (call/cc (lambda (k) k)))",
               "(list 'quote and)", "(list 'define (list car 'x) 1)", "(list 'define (list (call/cc (lambda (k) k)) 'x) 1)"]:
         out.append(sess(["(eval %s)" % d, PROBE]))
